@@ -783,6 +783,9 @@ impl<'a> Run<'a> {
         Some(Err(RecvError::Disconnected)) => self.not_got(a, "recv_fut", h, true),
         None => {
           self.rep.class("future_cancelled_pending");
+          if self.m.rx[h].closed {
+            fail!("C04", sig(self.s, a, "recv_fut", "self_closed_not_rejected"), "recv future on a self-closed receiver is Pending instead of rejecting the operation");
+          }
           if can {
             let oneshot_after = self.s.flavour == Flavour::Oneshot && self.m.one_taken;
             if !oneshot_after || !self.m.tx_alive() {
@@ -807,6 +810,9 @@ impl<'a> Run<'a> {
       Some(Some(v)) => self.got(true, "stream_next", h, v.id),
       Some(None) => self.not_got(true, "stream_next", h, true),
       None => {
+        if self.m.rx[h].closed {
+          fail!("C04", sig(self.s, true, "stream_next", "self_closed_not_rejected"), "stream of a self-closed receiver is Pending instead of ending");
+        }
         if can {
           fail!("C06", sig(self.s, true, "stream_next", "pending_but_ready"), "stream Pending with {} buffered, senders alive: {}", self.m.q.len(), self.m.tx_alive());
         }
@@ -982,6 +988,9 @@ impl<'a> Run<'a> {
       }
       O::Pending => {
         self.rep.class("future_cancelled_pending");
+        if self_closed {
+          fail!("C04", sig(self.s, a, form, "self_closed_not_rejected"), "batch recv future on a self-closed receiver is Pending instead of rejecting the operation");
+        }
         if max == 0 || self.can_recv_now(h) {
           fail!("C06", sig(self.s, a, form, "pending_but_ready"), "batch recv future Pending with {} buffered / max {max}", self.m.q.len());
         }
@@ -1062,6 +1071,17 @@ impl<'a> Run<'a> {
         if !f.unbounded() && c != ce {
           fail!("C03", sig(self.s, a, &format!("{side}.capacity"), "capacity_mismatch"), "capacity() {} != configured {}", c, ce);
         }
+      }
+      // once no receiver is left the buffered values are unobservable and the channel may
+      // already have destroyed them (C09 allows that): only the upper bound is checked
+      let rx_gone = !self.m.rx_alive();
+      if rx_gone {
+        if let Some(l) = l {
+          if l > len {
+            fail!("C02", sig(self.s, a, &format!("{side}.len"), "len_mismatch"), "len() {} but the FIFO model holds {}", l, len);
+          }
+        }
+        continue;
       }
       if let Some(l) = l {
         if l != len {
@@ -1163,7 +1183,10 @@ impl<'a> Run<'a> {
       }
       Op::CloneTx(i) if ntx > 0 && ntx < 4 => {
         let h = idx(*i, ntx);
-        if self.s.flavour == Flavour::Oneshot && self.m.tx[h].closed {
+        // precondition: only open handles are cloned.  What a clone of a close()d handle
+        // should be is not specified (fibre hands out an open handle, which can re-connect a
+        // channel whose receiver already reported Disconnected) — not generated.
+        if self.m.tx[h].closed {
           return Ok(());
         }
         if let Some(c) = self.tx[h].try_clone() {
@@ -1220,6 +1243,9 @@ impl<'a> Run<'a> {
       }
       Op::CloneRx(i) if nrx > 0 && nrx < 4 => {
         let h = idx(*i, nrx);
+        if self.m.rx[h].closed {
+          return Ok(());
+        }
         if let Some(c) = self.rx[h].try_clone() {
           self.rx.push(c);
           self.m.rx.push(HSt { closed: false, saw_disc: false });
